@@ -19,6 +19,46 @@ Theorem c15_key_injective : forall k1 k2, wf_key k1 -> wf_key k2 -> enc_key k1 =
 Proof. exact enc_key_injective. Qed.
 Print Assumptions c15_key_injective.
 
+(* the key round trip holds for names of ANY length below 2^32 ([wf_key] has no other bound): instances, checked by
+   running the model, whose 32-bit size field has a byte >= 0x80 in the first (128) and in the second (32768, 33000) place *)
+Example c15_key_roundtrip_len128 :
+  wf_key key_len128 /\ firstn 5 (enc_key key_len128) = [88; 128; 0; 0; 0] /\
+  dec_key (enc_key key_len128) = Some key_len128.
+Proof. exact key_len128_roundtrip. Qed.
+Example c15_key_roundtrip_len32768 :
+  wf_key key_len32768 /\ firstn 5 (enc_key key_len32768) = [100; 0; 128; 0; 0] /\
+  dec_key (enc_key key_len32768) = Some key_len32768.
+Proof. exact key_len32768_roundtrip. Qed.
+Example c15_key_roundtrip_len33000 :
+  wf_key key_len32768s /\ firstn 5 (enc_key key_len32768s) = [115; 232; 128; 0; 0] /\
+  dec_key (enc_key key_len32768s) = Some key_len32768s.
+Proof. exact key_len32768s_roundtrip. Qed.
+
+(* a BuildValue object that is re-used: whatever it held before ([dst], not even well-formed) and through whatever
+   history of assignments, after receiving [src] it encodes exactly like a fresh [src], shows [src] through its
+   accessors and decodes to [src] *)
+Theorem c15_assign_canonical : forall dst src, enc_value (move_assign dst src) = enc_value src.
+Proof. exact enc_move_assign. Qed.
+Print Assumptions c15_assign_canonical.
+
+Theorem c15_assign_roundtrip : forall dst src, wf_value src ->
+  view (move_assign dst src) = src /\ dec_value (enc_value (move_assign dst src)) = Some src.
+Proof. exact assign_roundtrip. Qed.
+Print Assumptions c15_assign_roundtrip.
+
+Theorem c15_assign_history_canonical : forall dst vs v,
+  enc_value (assign_all dst (vs ++ [v])) = enc_value v /\ view (assign_all dst (vs ++ [v])) = view v.
+Proof. exact assign_history. Qed.
+Print Assumptions c15_assign_history_canonical.
+
+(* non-vacuity of the three, and the reason for the `kindHasStringList()` guard: transferring the list only when it is
+   non-empty is not canonical *)
+Example c15_assign_instance :
+  exists dst src, wf_value dst /\ wf_value src /\ bv_strs dst <> [] /\ bv_strs src = [] /\
+                  enc_value (move_assign dst src) = enc_value src /\
+                  enc_value (move_assign_if_nonempty dst src) <> enc_value src.
+Proof. exact assign_instance. Qed.
+
 (* a stored result can never be mistaken for one of another kind: the first byte differs *)
 Theorem c15_cross_kind : forall v1 v2, bv_kind v1 <> bv_kind v2 -> hd 0 (enc_value v1) <> hd 0 (enc_value v2).
 Proof. exact cross_kind. Qed.
